@@ -624,3 +624,82 @@ pub fn aged(seed: u64, n: usize, out: &mut dyn Write) {
     }
     let _ = writeln!(out, "#stat aged:scenarios {}", n);
 }
+
+/// Delivery that only flush() can bring about: the reporter is installed with a report interval
+/// of an hour, so the background thread never helps.  Two flush() calls at once: the first is
+/// still inside a slow report() when another thread, which has just finished spans, calls
+/// flush() too; when THAT call returns its spans must have been delivered.
+pub fn cflush(seed: u64, n: usize, out: &mut dyn Write) {
+    fastrace::verif::set_callback(None);
+    let reports: Arc<Mutex<Vec<Vec<SpanRecord>>>> = Arc::new(Mutex::new(Vec::new()));
+    let stall_ms = Arc::new(AtomicU64::new(0));
+    let in_report = Arc::new(AtomicBool::new(false));
+    fastrace::set_reporter(LiveReporter { reports: reports.clone(), stall_ms: stall_ms.clone(), in_report: in_report.clone() },
+        Config::default().report_interval(Duration::from_secs(3600)));
+    let mut r = Rng::new(seed);
+    let mut delivered: HashMap<(u128, String), usize> = HashMap::new();
+    let drain = |delivered: &mut HashMap<(u128, String), usize>| {
+        let mut g = reports.lock().unwrap();
+        for b in g.drain(..) {
+            for rec in b {
+                *delivered.entry(key(&rec)).or_insert(0) += 1;
+            }
+        }
+    };
+    for k in 0..n {
+        let trace = ((seed as u128) << 64) | (k as u128 + 1);
+        {
+            // two flush() calls at once: the first is still inside a slow report() when another
+            // thread, which has just finished spans, calls flush() too.  When THAT call returns
+            // its spans must have been delivered (flush waits for a cycle that drains them).
+            fastrace::flush();
+            drain(&mut delivered);
+            let ms = if r.chance(1, 2) { 400 } else { 150 };
+            let root = Span::root(format!("cf-root-{k}"), SpanContext::new(TraceId(trace), SpanId(7)));
+            let gate = Span::enter_with_parent(format!("cf-gate-{k}"), &root);
+            let late = Span::enter_with_parent(format!("cf-late-{k}"), &root);
+            stall_ms.store(ms, Ordering::SeqCst);
+            let a = std::thread::spawn(move || {
+                drop(gate);
+                fastrace::flush();
+            });
+            let t0 = Instant::now();
+            while !in_report.load(Ordering::SeqCst) && t0.elapsed() < Duration::from_millis(10000) {
+                std::thread::sleep(Duration::from_millis(1));
+            }
+            let stalled = in_report.load(Ordering::SeqCst);
+            let b = std::thread::spawn(move || {
+                {
+                    let _g = late.set_local_parent();
+                    let _l = LocalSpan::enter_with_local_parent(format!("cf-local-{k}"));
+                }
+                drop(late);
+                fastrace::flush();
+            });
+            let _ = b.join();
+            // B's flush has returned
+            drain(&mut delivered);
+            let mut bad: Vec<String> = vec![];
+            for nm in ["cf-late", "cf-local"] {
+                let c = delivered.get(&(trace, format!("{nm}-{k}"))).copied().unwrap_or(0);
+                if c != 1 {
+                    bad.push(format!("{nm}-{k} delivered {c} times when the flush() of its thread returned"));
+                }
+            }
+            let _ = a.join();
+            drop(root);
+            fastrace::flush();
+            drain(&mut delivered);
+            for nm in ["cf-root", "cf-gate", "cf-late", "cf-local"] {
+                let c = delivered.get(&(trace, format!("{nm}-{k}"))).copied().unwrap_or(0);
+                if c != 1 && bad.is_empty() {
+                    bad.push(format!("{nm}-{k} delivered {c} times"));
+                }
+            }
+            let verdict = if bad.is_empty() { "delivered-once".to_string() } else { format!("VIOLATION {}", bad.join("; ")) };
+            let _ = writeln!(out, "L scenario={} concurrent-flush stall_ms={} stalled={} => {}", k, ms, stalled, verdict);
+            stall_ms.store(0, Ordering::SeqCst);
+        }
+    }
+    let _ = writeln!(out, "#stat cflush:scenarios {}", n);
+}
